@@ -58,6 +58,7 @@ type observation struct {
 	Queries   int           `json:"queries"`
 	Answered  int           `json:"answered"`
 	Probes    []string      `json:"size_probes,omitempty"`
+	ConnLimit *limitResult  `json:"connection_limit_script,omitempty"`
 	StartMS   int64         `json:"start_ms"`
 	TrafficMS int64         `json:"traffic_ms"`
 	StopMS    int64         `json:"stop_ms"`
@@ -409,11 +410,22 @@ func (h *harness) attempt(ms []mutation, tag string) (obs *observation, collided
 	}
 	sp.SizeProbe = !timeTouched(ms) && !bufTouched(ms)
 	sp.TimeTouched = timeTouched(ms)
-	sp.ConnTouched = connTouched(ms)
+	servers := liveServers(tree, loc)
+	lp := limiterParams(tree, servers)
+	sp.ConnTouched = connTouched(ms) || lp.streamsOptional()
 	// hopeless: the process died or printed a panic; waiting for more answers
 	// cannot change the verdict.
 	hopeless := func() bool { return exited() || sink.hasBad() }
-	obs.Groups, obs.Queries = runTraffic(liveServers(tree, loc), sp, hopeless)
+	if _, _, applies := lp.applicable(); applies && !sp.TimeTouched {
+		// Let every listener reach its first Accept before the count matters.
+		time.Sleep(100 * time.Millisecond)
+		cl := runConnLimitScript(servers, lp, sp.Tag, hopeless)
+		obs.ConnLimit = &cl
+		time.Sleep(100 * time.Millisecond)
+	}
+	if obs.ConnLimit == nil || obs.ConnLimit.Violation == "" {
+		obs.Groups, obs.Queries = runTraffic(servers, sp, hopeless)
+	}
 	obs.TrafficMS = time.Since(tTraffic).Milliseconds()
 	tStop := time.Now()
 	defer func() { obs.StopMS = time.Since(tStop).Milliseconds() }()
@@ -610,6 +622,13 @@ func (h *harness) classifyAccepted(obs *observation, died, termTimedOut, timeTou
 	case failed != nil:
 		obs.Verdict, obs.Class = "violation", "unanswered:"+grp(failed)
 		obs.What = "a query that the configured limits allow was never answered"
+	case obs.ConnLimit != nil && obs.ConnLimit.Violation != "":
+		obs.Verdict, obs.Class = "violation", obs.ConnLimit.Violation
+		cl := obs.ConnLimit
+		obs.What = fmt.Sprintf("stop=%d resume=%d, %d stream listeners: after the count fell to resume with %d connections kept open, at least %d listeners must serve their waiting connection; served %v, starved %v (fill unanswered %v, served above stop %v)",
+			cl.Stop, cl.Resume, cl.L, cl.Kept, cl.Guaranteed, cl.Served, cl.Starved, cl.FillLost, cl.EarlyServe)
+	case obs.ConnLimit != nil && obs.ConnLimit.Ambiguous != "":
+		obs.Verdict, obs.Class, obs.What = "ambiguous", "connlimit-script", obs.ConnLimit.Ambiguous
 	case sizeBelow != nil:
 		obs.Verdict, obs.Class = "violation", "effective-udp-size-below-configured"
 		obs.What = "a UDP answer that fits the advertised EDNS buffer and the configured dns.max_udp_response_size came back truncated: " + sizeBelow.Probe
@@ -753,6 +772,11 @@ func (h *harness) account(cr caseResult, found *findings) (class string) {
 	r.Bucket("queries_sent", int64(obs.Queries))
 	r.Bucket("queries_answered", int64(obs.Answered))
 	r.Bucket("effective_size_probes_applied", int64(len(obs.Probes)))
+	if cl := obs.ConnLimit; cl != nil && cl.Ran {
+		r.Bucket("connlimit_scripts_run", 1)
+		r.Bucket("connlimit_listeners_served_after_resume", int64(len(cl.Served)))
+		r.Bucket("connlimit_connections_established", int64(cl.Fill))
+	}
 	if lp := os.Getenv("C20_LIST"); lp != "" {
 		h.seq.Lock()
 		if f, ferr := os.OpenFile(lp, os.O_APPEND|os.O_CREATE|os.O_WRONLY, 0o644); ferr == nil {
@@ -830,10 +854,14 @@ func parseOnly(spec string, fields []field) ([]mutation, error) {
 				continue
 			}
 			for _, v := range f.Values {
-				if v.Class == cls {
+				if v.Class == cls && !found {
 					ms = append(ms, mutation{Path: f.Path, Kind: f.Kind, Value: v})
 					found = true
 				}
+			}
+			if n, aerr := strconv.Atoi(cls); !found && aerr == nil && f.Kind == "int" {
+				ms = append(ms, mutation{Path: f.Path, Kind: f.Kind, Value: mutValue{Class: cls, Value: n}})
+				found = true
 			}
 		}
 		if !found {
@@ -855,6 +883,7 @@ func TestCheck(t *testing.T) {
 	r.Assume("queries of the rate-limited loopback clients are required only while the configured limits allow them; when a rate-limit parameter is mutated only the first query of a fresh client is required")
 	r.Assume("connection_limit.stop/resume of 0 or 1 is below the documented minimum (more than the number of bound addresses): stream transports are then not required to answer")
 	r.Assume("effective-value probe: a UDP answer of known size must be complete when both the advertised EDNS buffer and dns.max_udp_response_size as written in the file exceed it by 64 bytes; skipped when socket buffer sizes or 1ns durations are mutated")
+	r.Assume("connection limit: sockets that are accepting count as active (documented); when stop <= listeners+3 and resume < listeners the ordinary stream groups are not required, and the dedicated script (which keeps its connections open and so controls the count) requires min(listeners used, stop-resume) listeners to serve after the count has fallen to resume")
 	r.Assume("an unanswered query is retried alone (3 s, then 8 s) and every violation is confirmed by a second, separate execution of the same file")
 
 	scratch := os.Getenv("VERIF_SCRATCH")
@@ -1061,6 +1090,11 @@ func TestCheck(t *testing.T) {
 		combos = append(combos, caseSpec{Stream: "constraint", Idx: i, Muts: ms})
 	}
 	r.Bucket("cases_constraint", int64(len(combos)))
+	clCases := connLimitCases(h.baseLoc.Tree, liveServers(h.baseLoc.Tree, h.baseLoc))
+	for i, ms := range clCases {
+		combos = append(combos, caseSpec{Stream: "connlimit", Idx: i, Muts: ms})
+	}
+	r.Bucket("cases_connlimit", int64(len(clCases)))
 	gen("pair", r.N(150, 6000), 2)
 	gen("triple", r.N(0, 3000), 3)
 	r.Bucket("cases_combination", int64(len(combos)))
@@ -1078,6 +1112,7 @@ func TestCheck(t *testing.T) {
 	r.Require("rejected", 80)
 	r.Require("queries_answered", 10000)
 	r.Require("effective_size_probes_applied", 100)
+	r.Require("connlimit_scripts_run", 6)
 	if n := r.BucketGet("ambiguous"); n > 5 {
 		r.Inconclusive(fmt.Sprintf("%d executions ended without a decisive observation (watchdogs / port collisions)", n))
 	}
